@@ -12,6 +12,7 @@ use crate::jws::JwsHeader;
 use crate::jwu::create_message;
 use crate::jwu::decode_b64;
 use crate::jwu::decode_b64_json;
+use crate::jwu::extract_b64;
 use crate::jwu::filter_non_empty_bytes;
 use crate::jwu::parse_utf8;
 use crate::jwu::validate_jws_headers;
@@ -349,6 +350,22 @@ impl Decoder {
 
     let payload = Self::expand_payload(detached_payload, data.payload)?;
     let signatures = data.signatures;
+
+    // The effective "b64" value must be the same for all signatures (RFC 7797, section 3).
+    // Protected headers that fail to decode are reported by the iterator for their own signature.
+    let mut b64_values = signatures.iter().filter_map(|signature| {
+      signature
+        .protected
+        .map(decode_b64_json::<JwsHeader>)
+        .transpose()
+        .ok()
+        .map(|header| extract_b64(header.as_ref()))
+    });
+    if let Some(first) = b64_values.next() {
+      if b64_values.any(|value| value != first) {
+        return Err(Error::InvalidParam("b64"));
+      }
+    }
 
     Ok(JwsValidationIter {
       decoder: self,
